@@ -36,7 +36,8 @@ ASSUMPTIONS = [
 EXTRA = [b"czqv\nrebuild\n(" + b"".join(b"K" + bytes([100 + i]) for i in range(14)) + b"tR.",      # a call with 14 positional arguments
          b"czqv\nf\n(" + b"\x8c\x46" + b"x" * 70 + b"]\x94\x8c\x46" + b"y" * 70 + b"atR.",                  # long literals nested in a call / list
          b"0.", b"h\x05.", b"cos\nsystem\n0N\x90.",          # parse but cannot be interpreted: every view must keep raising
-         b"(I1\nI2\nd(I3\nI4\nu.", b"czqv\nf\n)R(K\x01K\x02u.", b"czqv\nf\n)RK\x01K\x02s.", b"]czqv\nf\n)Ra.",
+         b"(I1\nI2\nd(I3\nI4\nu.", b"czqv\nf\n(K\x01K\x02u.", b"czqv\nf\nK\x01K\x02s.",      # SETITEM(S) on a dict literal / on a global
+ b"czqv\nf\n)R(K\x01K\x02u.", b"czqv\nf\n)RK\x01K\x02s.", b"]czqv\nf\n)Ra.",
          b"cos\nsystem\n(S'id'\ntRcposix\nsystem\n(S'x'\ntR\x86.", b"czqv\nf\nczqv\ng\nczqv\nh\n\x87.",
          b"\x80\x04\x80\x04N.", b"(S'k'\nI1\nS'j'\nI2\nd.", b"c__builtin__\neval\n(S'1'\ntR0c__builtin__\nexec\n(S'2'\ntR."]
 # pairs that share an attribute name between a stdlib module and a non-stdlib one / builtins: state kept per *name*
